@@ -11,6 +11,7 @@ open Proto Weights
             -> none | <log Λ> <sum |terms|>      SourceWeighted(SigOverBkg [x ratio]) on the flat values array
       hist  <opa> <K> <W0> <J> {<N_j> <E_j> <R_j flat>} {A <Y flat> | F | E <ns> | W <weights> | C}
             -> the values of the E steps: the state machine `lowRun` (cached W, a_jk, f_j) on low-level operations
+      bld   <J> {<builder ids of group g>}     -> error | code:<J x G builder ids, x = unfilled> spec:<J x G builder ids>
       multi <opa> <ns> <K> <W> <Y flat> <J> {<N_j> <E_j> <R_j flat (K x E_j)>}   -> <log Λ> <f list> <sum |terms|>
 -/
 def chunk {α} (n : Nat) (xs : List α) : List (List α) :=
@@ -97,6 +98,14 @@ def answer (line : String) : String :=
           let sa := (Xs.map (fun X => (LLH.logLambdaI (pF opa) (pF ns) X).abs)).foldl (· + ·) 0
             + (LLH.pureBkgTerm N Xs.length (pF ns)).abs
           s!"{fF (LLH.llrOfRatios (pF opa) N (pF ns) Ri)} {fF sa}"
+  | "bld" :: j :: rest =>
+      let J := pN j
+      let groups := rest.map (pList pN)
+      match constructArrCode J groups, constructArrSpec J groups with
+      | some c, some sp =>
+          let fo : Option Nat → String := fun o => match o with | some b => toString b | none => "x"
+          s!"code:{fListD fo c.flatten} spec:{fListD toString sp.flatten}"
+      | _, _ => "error"
   | "hist" :: opa :: k :: w0 :: j :: rest =>
       let K := pN k
       let J := pN j
